@@ -35,6 +35,6 @@ require (
 	golang.org/x/sys v0.0.0-20210124154548-22da62e12c0c // indirect
 )
 
-replace github.com/openebs/jiva => /tmp/dbg/repo
+replace github.com/openebs/jiva => /repo
 
 replace github.com/frostschutz/go-fibmap => github.com/rancher/go-fibmap v0.0.0-20160418233256-5fc9f8c1ed47
